@@ -268,6 +268,13 @@ class Outbound:
         # send our queued messages
         self.resumeProducing()
 
+    def abandon_connection(self):
+        # the connection is about to be closed gracefully: what is already
+        # buffered still goes out, but we stop being its producer so that
+        # the close cannot be held up waiting for us
+        self._connection.transport.unregisterProducer()
+        self.pauseProducing()
+
     def stop_using_connection(self):
         self._connection.transport.unregisterProducer()
         self._connection = None
